@@ -56,7 +56,10 @@ type c13HPConn struct {
 	writes  []c13HPWrite
 }
 
-func (c *c13HPConn) Read(_ []byte) (int, error)  { <-c.closeCh; return 0, netproxy.UnsupportedTunnelTypeError }
+func (c *c13HPConn) Read(_ []byte) (int, error) {
+	<-c.closeCh
+	return 0, netproxy.UnsupportedTunnelTypeError
+}
 func (c *c13HPConn) Write(b []byte) (int, error) { return len(b), nil }
 func (c *c13HPConn) ReadFrom(_ []byte) (int, netip.AddrPort, error) {
 	<-c.closeCh
